@@ -94,10 +94,11 @@ def explain_unsat_next(op_signal, intervals):
 
 
 def explain_rise(op_signal, intervals):
-    return explain_unary(op_signal, intervals)
+    # rise/fall at t depend on the operand at t-1 and t
+    return [[max(begin - 1, 0), end] for begin, end in intervals]
 
 def explain_fall(op_signal, intervals):
-    return explain_unary(op_signal, intervals)
+    return [[max(begin - 1, 0), end] for begin, end in intervals]
 
 
 def explain_sat_prev(op_signal, intervals):
